@@ -367,11 +367,18 @@ func stressSet(r *hx.Run, rng *hx.Rng) bool {
 	s := reactive.NewSet[int](randSubset(rng, u)...)
 	nw := rng.Range(2, 3)
 	writers := make([]func(*hx.Rng), nw)
+	// arg is a (thread-safe) set that is handed to Replace while another goroutine keeps mutating it: Replace must
+	// report exactly the change it makes, whatever it sees of the argument
+	arg := ds.NewSet[int](randSubset(rng, u)...)
 	for w := 0; w < nw; w++ {
 		n := rng.Range(10, 40)
 		writers[w] = func(wr *hx.Rng) {
 			for j := 0; j < n; j++ {
-				switch wr.Intn(9) {
+				switch wr.Intn(12) {
+				case 9, 10:
+					s.Replace(arg)
+				case 11:
+					s.Replace(arg.ReadOnly())
 				case 0:
 					s.Add(wr.Intn(u))
 				case 1:
@@ -399,6 +406,27 @@ func stressSet(r *hx.Run, rng *hx.Rng) bool {
 				}
 			}
 		}
+	}
+	if rng.Chance(2, 3) {
+		n := rng.Range(40, 160)
+		writers = append(writers, func(wr *hx.Rng) {
+			for j := 0; j < n; j++ {
+				switch wr.Intn(4) {
+				case 0:
+					arg.Delete(wr.Intn(u))
+				case 1:
+					arg.DeleteAll(ds.NewSet(randSubset(wr, u)...))
+				case 2:
+					arg.AddAll(ds.NewSet(randSubset(wr, u)...))
+				default:
+					arg.Add(wr.Intn(u))
+				}
+				if wr.Chance(1, 4) {
+					runtime.Gosched()
+				}
+			}
+		})
+		r.Count("stress:set:rounds-with-argument-mutator")
 	}
 	sub := func(rd *round, sl *subLog, flag bool) {
 		sl.unsub = s.OnUpdate(func(m ds.SetMutations[int]) { rd.body(sl, showMut(m)) }, flag)
